@@ -8,7 +8,7 @@ Finding classes:
 import subprocess
 import os
 from sexp import show, parse
-from gen import Gen, kind, is_basic, is_fixed, UINT_W, StoreGen, nested_ty
+from gen import Gen, kind, is_basic, is_fixed, UINT_W, StoreGen, nested_ty, positions
 
 HERE = os.path.dirname(os.path.abspath(__file__))
 DRV = os.path.join(os.path.dirname(HERE), 'lean', '.lake', 'build', 'bin', 'rmkdrv')
@@ -291,6 +291,22 @@ class C04(HistProp):
     pid = 'C04'
     quick_n = 150
     thorough_n = 2500
+
+    def generate(self, g, tier, focus=None):
+        out = HistProp.generate(self, g, tier)
+        if tier == 'thorough':
+            # exhaustive: every op sequence of length <= 5 over a small alphabet, on small lists / bitlists
+            import itertools
+            table = [(['bl', 3], 'b', [['app', '1'], ['app', '0'], ['pop'], ['set', 0, '1']]),
+                     (['bl', 257], 'b' + '1' * 255, [['app', '1'], ['pop'], ['set', 255, '0']]),
+                     (['list', 'u8', 3], ['s'], [['app', '7'], ['pop'], ['set', 0, '9'], ['set', 2, '1']]),
+                     (['list', 'u64', 5], ['s', '1', '2', '3'], [['app', '4'], ['pop'], ['set', 3, '8']]),
+                     (['list', ['cont', 'u8', 'u8'], 3], ['s'], [['app', ['s', '1', '2']], ['pop'], ['set', 1, ['s', '3', '4']]])]
+            for t, v0, alphabet in table:
+                for ln in range(1, 6):
+                    for seq in itertools.product(alphabet, repeat=ln):
+                        out.append(show(['hist', t, v0] + list(seq)))
+        return out
     rule = ('random mutation histories (5/20/60[/200] ops; append/pop runs crossing chunk and subtree boundaries in both '
             'directions) on values of mutable types; after EVERY op: ok/err, root, encoding, indexed read, read-only '
             'iteration against the Spec value; non-trivial = at least 2 ops; distinct = distinct case lines')
@@ -436,6 +452,44 @@ class DecProp(Prop):
             if r.random() < 0.5:
                 rb = bytes(r.getrandbits(8) for _ in range(r.choice([0, 1, 2, 3, 4, 5, 8, 9, 16, 33])))
                 out.append(show(['dec', t, 'x', 'x' + rb.hex(), 'x']))
+        # bitfield edits: every padding bit of a bitvector's last byte, delimiter edits of a bitlist,
+        # at top level and as a field between other fields
+        for _ in range(max(4, n // 60)):
+            nb = r.choice([3, 9, 12, 31, 33, 255, 257, 260, 300, 511, 513, 1001, 1023, 1025])
+            bits = [r.random() < 0.5 for _ in range(nb)]
+            raw = bytearray((nb + 7) // 8)
+            for i, b in enumerate(bits):
+                if b:
+                    raw[i // 8] |= 1 << (i % 8)
+            for wrap in (0, 1):
+                t = ['bv', nb] if not wrap else ['cont', 'u8', ['bv', nb], 'u16']
+                pre, post = (b'', b'') if not wrap else (b'\x07', b'\x01\x02')
+                out.append(show(['dec', t, 'x', 'x' + (pre + bytes(raw) + post).hex(), 'x']))
+                for pbit in range(nb % 8, 8) if nb % 8 else []:
+                    bad = bytearray(raw)
+                    bad[-1] |= 1 << pbit
+                    out.append(show(['dec', t, 'x', 'x' + (pre + bytes(bad) + post).hex(), 'x']))
+            lim = nb
+            ln = r.choice([0, 1, lim, max(lim - 1, 0), r.randint(0, lim)])
+            raw = bytearray(ln // 8 + 1)
+            for i in range(ln):
+                if r.random() < 0.5:
+                    raw[i // 8] |= 1 << (i % 8)
+            raw[ln // 8] |= 1 << (ln % 8)
+            tl = ['bl', lim]
+            out.append(show(['dec', tl, 'x', 'x' + bytes(raw).hex(), 'x']))
+            for edit in ('nodelim', 'high', 'extra0', 'overlimit'):
+                bad = bytearray(raw)
+                if edit == 'nodelim':
+                    bad[-1] = 0
+                elif edit == 'high':
+                    bad[-1] |= 0x80
+                elif edit == 'extra0':
+                    bad += b'\x00'
+                else:
+                    bad = bytearray((lim + 1) // 8 + 1)
+                    bad[(lim + 1) // 8] |= 1 << ((lim + 1) % 8)
+                out.append(show(['dec', tl, 'x', 'x' + bytes(bad).hex(), 'x']))
         if tier == 'thorough':
             # exhaustive: all strings of length <= 2 for a fixed table of small types
             table = ['bool', 'u8', 'u16', ['bv', 3], ['bv', 9], ['bl', 3], ['bl', 8], ['bl', 12], ['Bv', 2], ['Bl', 1],
@@ -665,10 +719,20 @@ class C13(Prop):
             if r.random() < 0.1:
                 out.append(show(['uctor', w, r.choice([-1, 0, (1 << (8 * w)) - 1, 1 << (8 * w), a])]))
         if tier == 'thorough':
-            for op in ('add', 'sub', 'mul', 'xor'):
+            # exhaustive for width 8: every operand pair for the coercing operators (uint8 x uint8 and
+            # uint8 x plain int), every shift amount 0..9, every exponent 0..8
+            for op in ('add', 'sub', 'mul', 'xor', 'and', 'or', 'floordiv', 'mod'):
                 for a in range(256):
-                    for b in range(0, 256, 1 if op in ('add', 'sub') else 5):
-                        out.append(show(['uop', op, 1, a, 1, b]))
+                    for b in range(256):
+                        out.append(show(['uop', op, 1, a, 1 if (a + b) % 2 else '-', b]))
+            for op in ('lshift', 'rshift'):
+                for a in range(256):
+                    for b in range(10):
+                        out.append(show(['uop', op, 1, a, '-', b]))
+            for a in range(256):
+                for b in range(9):
+                    out.append(show(['uop', 'pow', 1, a, '-', b]))
+                out.append(show(['uinv', 1, a]))
         return out
 
     def nontrivial(self, c):
@@ -706,10 +770,46 @@ class C15(ValProp):
             t, v = self.tv(g, tier)
             w = g.val(t) if g.rng.random() < 0.7 else v
             out.append(show(['eq2', t, v, w]))
+        # the three stack iterators directly on arbitrary trees (also malformed: non-leaf bottoms,
+        # too shallow, summaries in the way) against their state-machine models
+        r = g.rng
+        for _ in range(self.n(tier) // 2):
+            d = r.choice([0, 1, 2, 3, 4])
+            tr = self.full_tree(g, d) if r.random() < 0.6 else g.tree(d + r.choice([0, 1]), 0.15)
+            cmds = []
+            for _ in range(r.choice([2, 4])):
+                c = r.random()
+                if c < 0.35:
+                    cmds.append(['niter', d, r.choice([0, 1, (1 << d), (1 << d) - 1, (1 << d) + 1, r.randint(0, (1 << d) + 1)])])
+                elif c < 0.7:
+                    et = r.choice(['u8', 'u16', 'u32', 'u64', 'u128', 'u256', 'bool'])
+                    per = 32 // {'u8': 1, 'u16': 2, 'u32': 4, 'u64': 8, 'u128': 16, 'u256': 32, 'bool': 1}[et]
+                    cap = (1 << d) * per
+                    cmds.append(['piter', et, d, r.choice([0, 1, per, per + 1, cap, max(cap - 1, 0), cap + 1, r.randint(0, cap + 1)])])
+                else:
+                    cap = (1 << d) * 256
+                    cmds.append(['biter', d, r.choice([0, 1, 255, 256, 257, cap, cap - 1, cap + 1, r.randint(0, cap + 1)])])
+            out.append(show(['tree', tr] + cmds))
         return out
+
+    def full_tree(self, g, d):
+        if d == 0:
+            c = g.chunk()
+            if g.rng.random() < 0.5:
+                c = bytes(b & 1 for b in c)   # booleans decode
+            return ['L', c.hex()]
+        return ['P', self.full_tree(g, d - 1), self.full_tree(g, d - 1)]
 
     def compare(self, case, py, mo, stats):
         out = []
+        if case[0] == 'tree':
+            for i, c in enumerate(case[2:]):
+                p = '%d.' % i
+                bump(stats, 'ops', c[0])
+                a, b = py.get(p + c[0]), mo.get(p + c[0])
+                if a != b:
+                    out.append(F('corr', 'stack iterator %s %s on a raw tree' % (c[0], show(c[1:])), a, b))
+            return out
         if case[0] == 'eq2':
             bump(stats, 'kinds', 'eq2:' + kind(case[1]))
             same = show(case[2]) == show(case[3])
@@ -962,7 +1062,40 @@ class C08(Prop):
             bad = self.bad_key(g, t)
             if bad is not None:
                 out.append(show(['path', t, bad]))
+        if tier == 'thorough':
+            # exhaustive: every key (and the pseudo keys) of a table of small types, two levels deep
+            table = [['list', 'u16', 17], ['vec', 'u64', 5], ['bl', 300], ['bv', 257], ['Bv', 33], ['Bl', 65],
+                     ['cont', 'u8', ['list', 'u8', 3], ['vec', 'bool', 9], ['union', 'none', 'u16', ['bl', 5]]],
+                     ['list', ['cont', 'u16', ['list', 'u8', 5]], 9], ['vec', ['list', 'u256', 3], 3],
+                     ['union', ['cont', 'u8', 'u8', 'u8'], ['list', 'u64', 9]]]
+            for t in table:
+                for k1 in self.all_keys(t):
+                    out.append(show(['path', t, k1]))
+                    t1 = self.sub_type(t, k1)
+                    if t1 is not None and not is_basic(t1) and t1 != 'none':
+                        for k2 in self.all_keys(t1):
+                            out.append(show(['path', t, k1, k2]))
         return out
+
+    def all_keys(self, t):
+        k = kind(t)
+        if k in ('vec', 'list'):
+            return list(range(t[2] + 2)) + (['len'] if k == 'list' else []) + ['sel']
+        if k in ('bv', 'bl', 'Bv', 'Bl'):
+            return list(range(t[1] + 2)) + ['len']
+        if k in ('cont', 'union'):
+            return list(range(len(t) + 1)) + ['sel', 'len']
+        return [0]
+
+    def sub_type(self, t, key):
+        k = kind(t)
+        if key in ('len', 'sel'):
+            return None
+        if k in ('vec', 'list'):
+            return t[1] if key < t[2] else None
+        if k in ('cont', 'union'):
+            return t[1 + key] if key < len(t) - 1 else None
+        return None
 
     def bad_key(self, g, t):
         k = kind(t)
@@ -1176,10 +1309,23 @@ class C17(Prop):
         out = []
         for _ in range(self.n(tier)):
             t, v = self.tv(g, tier, mutable=True)
+            if r.random() < 0.3:
+                # byte lists / nested composites inside a container: reads must fail, never misread
+                t = ['cont', g.ty(1), ['Bl', r.choice([33, 64, 65, 100])], t, ['list', ['cont', 'u8', 'u16'], r.choice([4, 8, 9])]]
+                v = g.val(t, 12)
+            v = boundary_value(g, t, v)
             npos = r.choice([1, 1, 2, 3])
-            pos = ['pos'] + [r.choice([2, 3, r.randint(2, 15), r.randint(2, 63), r.randint(2, 1 << r.choice([3, 5, 8, 12]))]) for _ in range(npos)]
+            cand = [x for x in positions(t, v) if x > 1]
+            pos = ['pos']
+            for _ in range(npos):
+                if cand and r.random() < 0.7:
+                    pos.append(r.choice(cand))
+                else:
+                    pos.append(r.choice([2, 3, r.randint(2, 15), r.randint(2, 63), r.randint(2, 1 << r.choice([3, 5, 8, 12]))]))
             ops = []
             hist, _ = g.ops(t, v, r.choice([2, 5, 10]))
+            if kind(t) in ('list', 'bl') and r.random() < 0.5:
+                hist = [['app', g.val(t[1], 4) if kind(t) == 'list' else '1']] + hist
             for o in hist:
                 if r.random() < 0.4:
                     ops.append(r.choice([['read'], ['len'], ['bytes'], ['root'], ['elem', r.randint(0, 6)], ['elem', r.randint(0, 40)]]))
